@@ -197,6 +197,29 @@ theorem rejected_noop_handler {σ : Type} (e : HandlerEnv σ) (s : σ)
         · rw [hd] at hx; cases hx
         · rw [hl] at hx; cases hx
 
+/-- a request with unreadable framing ends the connection: it is answered 400, nothing that follows on the connection is
+    executed and the state is untouched — whatever bytes (e.g. a complete valid Subscribe request) come behind it -/
+theorem framing_error_ends_connection {σ : Type} (e : HandlerEnv σ) (rest : List (HandlerEnv σ)) (s : σ) (x : Exc)
+    (h : e.readBody = .error x) : serveConn (e :: rest) s = ([.plain 400 .exception], s) := by
+  simp [serveConn, doPOST, h]
+
+/-- on a connection every request up to the first unreadable one is answered -/
+theorem serveConn_answers_first {σ : Type} (e : HandlerEnv σ) (rest : List (HandlerEnv σ)) (s : σ) :
+    ∃ o os, (serveConn (e :: rest) s).1 = o :: os := by
+  obtain ⟨o, ho⟩ := doPOST_total e s
+  simp only [serveConn]
+  cases hd : doPOST e s with
+  | mk res s' =>
+    rw [hd] at ho
+    simp only at ho
+    subst ho
+    simp only
+    cases e.readBody with
+    | error x => exact ⟨_, _, rfl⟩
+    | ok u =>
+      simp only
+      split <;> exact ⟨_, _, rfl⟩
+
 /-- the component is only called when body, dispatcher and path were fine; its answer is passed on unchanged -/
 theorem soap_answer_is_components {σ : Type} (e : HandlerEnv σ) (s : σ) (r : Response) (h : (doPOST e s).1 = .ok (.soap r)) :
     (e.post s).1 = .ok r := by
